@@ -34,7 +34,15 @@ PhClauses(r) ==
    LET want == ParseText(r.pre \o <<"(">> \o r.c \o <<")">> \o r.post) IN
    IF ~want.ok \/ ~ParseText(r.c).ok THEN {}
    ELSE IF r.err \/ r.tt # TT(want.tree) THEN {"C07.placeholder"} ELSE {}
-Clauses(r) == IF r.kind = "ph" THEN PhClauses(r) ELSE ExprClauses(r)
+\* kind "wip": --wip --tags=<text>: the configured expression is (text) AND wip: with the tag wip present it has the truth table
+\* of the text on the tag set enlarged by wip (a wildcard may match the tag wip itself), without it it is false for every
+\* tag set (tt / tt0 over the subsets of Univ)
+WipClauses(r) ==
+   LET p == ParseText(r.text) IN
+   IF ~p.ok THEN {}
+   ELSE IF r.err \/ r.tt # [k \in DOMAIN SS |-> Eval(p.tree, SS[k] \cup {<<"w", "i", "p">>})] \/ (\E k \in DOMAIN r.tt0 : r.tt0[k])
+        THEN {"C07.wip_conjunction"} ELSE {}
+Clauses(r) == IF r.kind = "ph" THEN PhClauses(r) ELSE IF r.kind = "wip" THEN WipClauses(r) ELSE ExprClauses(r)
 
 Next == /\ i <= Len(Rows)
         /\ \A c \in Clauses(R) : PrintT(<<"VERDICT", R.id, c>>)
